@@ -1,5 +1,9 @@
 import ShkModel.Driver.C01
 import ShkModel.Driver.C18
+import ShkModel.Driver.Aud
+import ShkModel.Driver.C02
+import ShkModel.Driver.C08
+import ShkModel.Driver.C11
 /-! `shkdrv`: the executable model driver.  One request per line
 (`<property> <op> <tokens…>`), one answer per line.  Imports only core-Lean model and
 spec modules, so that it links. -/
@@ -9,6 +13,10 @@ def dispatch (line : String) : String :=
   match (line.trimAscii.toString.splitOn " ").filter (· ≠ "") with
   | "C01" :: rest => C01.handle rest
   | "C18" :: rest => C18.handle rest
+  | "AUD" :: rest => Aud.handle rest
+  | "C02" :: rest => C02.handle rest
+  | "C08" :: rest => C08.handle rest
+  | "C11" :: rest => C11.handle rest
   | _ => "bad-op"
 
 partial def loop (h : IO.FS.Stream) (out : IO.FS.Stream) : IO Unit := do
